@@ -61,8 +61,11 @@ ASSUMPTIONS = [
     'windows of one chopper do not overlap in more than an endpoint',
 ]
 BOUND = {
-    'quick': '0-2 choppers: 4 pulses x 4 distance pairs x 13 patterns^2 and all 5 distances x 19 patterns; 3-5 choppers on two distance ladders with 3 wide patterns; final distance 80 m',
-    'thorough': '0-2 choppers: 6 pulses x all 15 distance pairs x 19 patterns^2; 3 choppers: 6 ladders x 6 patterns^3; 4-5 choppers: 4^4, 3^5 patterns; all listing orders up to 4 choppers',
+    'quick': '4 pulses; 1 chopper: 5 distances x 19 window patterns; 2 choppers: 4 distance pairs (one at equal distance) x 13^2 patterns; '
+    '3 choppers: 2 ladders x 3^3 patterns x 2 pulses; 5 choppers: all 5 distances x 3^5 patterns; per configuration the whole program family '
+    '(all listing orders up to 4 choppers, 9 orders for 5), final distance 80 m; completed',
+    'thorough': '7 pulses x 5 distances x 22 patterns (1 chopper); 6 pulses x all 15 distance pairs x 19^2 patterns (2 choppers); 4 pulses x 6 ladders x 6^3 '
+    '(3 choppers); 3 pulses x 2 ladders x 4^4 (4 choppers); 2 pulses x 2 ladders x 3^5 (5 choppers); same program family; completed',
 }
 REQUIRED_CLASSES = [
     'cut_const_lambda_edge_open',
@@ -191,7 +194,7 @@ def cases(tier):
     if thorough:
         ladders3 = [(6.3, 10.0, 23.7), (0.0, 10.0, 10.0), (6.3, 6.3, 6.3), (0.0, 6.3, 60.0), (10.0, 23.7, 60.0), (23.7, 23.7, 60.0)]
         pats3 = P_MID
-        pulses3 = pulses
+        pulses3 = ['wide', 'ess', 'narrow', 'ess12']
     else:
         ladders3 = [(6.3, 10.0, 23.7), (0.0, 10.0, 10.0)]
         pats3 = P_WIDE
